@@ -5,6 +5,7 @@ package main
 import (
 	"encoding/json"
 	"fmt"
+	"strings"
 
 	"github.com/hyperledger/firefly-signer/pkg/abi"
 	"github.com/hyperledger/firefly-signer/pkg/ethtypes"
@@ -74,6 +75,36 @@ func init() {
 				}
 				pool = append(pool, e)
 				c.Add(map[string]any{"op": "abi.entry", "entry": e}, "entry."+typ)
+				if i%3 == 0 {
+					// history: the entry object is used (signature, selector, topic), then changed, then used again —
+					// what it reports must be the signature / selector / topic of the entry as it now stands
+					var after map[string]any
+					bb, _ := json.Marshal(e)
+					d := json.NewDecoder(strings.NewReader(string(bb)))
+					d.UseNumber()
+					_ = d.Decode(&after)
+					kind := Pick(r, []string{"rename", "replaceInputs", "retypeParam"})
+					ins, _ := after["inputs"].([]any)
+					switch {
+					case kind == "replaceInputs":
+						after["inputs"] = entryJSON(typ, name, false, genEntryParams(r, 1+r.Intn(3)))["inputs"]
+					case kind == "retypeParam" && len(ins) > 0:
+						k := r.Intn(len(ins))
+						pm := ins[k].(map[string]any)
+						pm["type"] = Pick(r, []string{"uint128", "int64", "bytes7", "address[]", "bool", "string[2]", "uint256"})
+						delete(pm, "components")
+						after["retyped"] = k
+					default:
+						kind = "rename"
+						after["name"] = name + Pick(r, []string{"2", "_v2", "X"})
+					}
+					hist := map[string]any{"before": e, "kind": kind}
+					if k, has := after["retyped"]; has {
+						hist["index"] = k
+						delete(after, "retyped")
+					}
+					c.Add(map[string]any{"op": "abi.entry", "entry": after, "history": hist}, "entry.history."+kind)
+				}
 				// call data: own decode, cross decode with another pool entry
 				top := topTuple(ts)
 				v := genVal(r, top, 60)
@@ -188,6 +219,35 @@ func init() {
 			switch str(req, "op") {
 			case "abi.entry":
 				e := entryFromJSON(req["entry"])
+				if h, has := req["history"].(map[string]any); has {
+					after := e
+					e = entryFromJSON(h["before"])
+					_ = e.Validate()
+					_, _ = e.Signature()
+					_, _ = e.GenerateFunctionSelector()
+					_, _ = e.SignatureHash()
+					_ = e.FunctionSelectorBytes()
+					switch str(h, "kind") {
+					case "rename":
+						e.Name = after.Name
+					case "replaceInputs":
+						e.Inputs = after.Inputs
+					case "retypeParam":
+						k := 0
+						switch t := h["index"].(type) {
+						case int:
+							k = t
+						case json.Number:
+							n, _ := t.Int64()
+							k = int(n)
+						case float64:
+							k = int(t)
+						}
+						e.Inputs[k].Type = after.Inputs[k].Type
+						e.Inputs[k].Components = after.Inputs[k].Components
+						_ = e.Inputs[k].Validate()
+					}
+				}
 				sig, err := e.Signature()
 				if err != nil {
 					return "err"
